@@ -81,5 +81,10 @@ CHECKS = {
                      "and time-ranges placed one second before, on and after every key instant (with CALDAV:timezone variants), and for generated comp/prop/param filter trees, the REPORT "
                      "returned exactly the objects the oracle accepts, with calendar-data equal to the resource.",
                 note="Trusted: vf/caloracle.py (written from the RFC, Appendix A) and vf/icl.py; automatic indexing is switched off here (index transparency is C10); server default timezone UTC."),
+    "C12": dict(level="exploration", design="DESIGN.md section 4 C12 and Appendix B",
+                technique="runtime monitoring: differential oracle - an independent RFC 6352 10.5 evaluator (vf/cardoracle.py, self-tested) judges every (query, card) pair for enumerated match-type x collation x negation x text-relation filters, param-filters, anyof/allof combinations and limits against the real REPORT answers",
+                text="Held on the generated filters and cards: the REPORT returned exactly the cards the oracle accepts for every match type, collation, negation, param-filter and "
+                     "anyof/allof combination (ASCII and non-ASCII values), never more than nresults responses, address-data equal to the stored card, and never a 5xx.",
+                note="Trusted: vf/cardoracle.py and vf/icl.py; only unstructured text properties in text-match cases; unicode case folding modelled by str.casefold()."),
 }
 NOT_APPLICABLE = {}
